@@ -152,6 +152,7 @@ type Opts struct {
 	CaptureDumps bool
 	SmallWindows bool // tiny NACK/rtx windows so goroutines collide / eviction happens
 	HighRates    bool // pacers / estimators start far above what the workloads send
+	PacingRate   int  // when non-zero and !HighRates: exact rate (bit/s) of the pacing interceptor, interval 5 ms
 }
 
 func pickInterval(r *vf.Rand, o Opts, defaults ...time.Duration) time.Duration {
@@ -295,8 +296,13 @@ func Build(r *vf.Rand, k Kind, o Opts) (*Built, error) {
 		b.PacingRate = r.Pick(1_000_000, 10_000_000, 100_000_000)
 		if o.HighRates {
 			b.PacingRate = 100_000_000
+		} else if o.PacingRate != 0 {
+			b.PacingRate = o.PacingRate
 		}
 		iv := time.Duration(r.Pick(1, 5, 10)) * time.Millisecond
+		if !o.HighRates && o.PacingRate != 0 {
+			iv = 5 * time.Millisecond
+		}
 		b.Interval = iv
 		b.Desc = fmt.Sprintf("pacing(rate=%d,int=%v)", b.PacingRate, iv)
 		pf := pacing.NewInterceptor(pacing.InitialRate(b.PacingRate), pacing.Interval(iv), pacing.WithLoggerFactory(lf))
